@@ -65,6 +65,10 @@ e = some(where (p.eft == allow))
 [matchers]
 m = g(r.sub, p.sub, r.dom) && r.dom == p.dom && r.obj == p.obj && r.act == p.act
 """
+# role assignments that carry link-condition parameters (g = _, _, (_, _): "temporal roles"); the rule set is the same
+# kind of ordered set, the role definition only adds two stored parameters per assignment
+COND = RBAC.replace("g = _, _\n", "g = _, _, (_, _)\n")
+GC_RULES = [["alice", "admin", "t0", "t9"], ["bob", "admin", "t0", "t9"], ["admin", "root", "t1", "t2"]]
 GD_RULES = [["alice", "admin", "d1"], ["bob", "admin", "d1"], ["alice", "admin", "d2"]]
 
 P_RULES = [["alice", "data1", "read"], ["bob", "data1", "read"], ["alice", "data2", "write"]]
@@ -569,6 +573,7 @@ def all_shapes():
         Shape("rbac-g/enforcer", RBAC, "g", "g", G_RULES),
         Shape("rbac-g/unit", RBAC, "g", "g", G_RULES, level="unit"),
         Shape("dom-g/enforcer", DOM, "g", "g", GD_RULES),
+        Shape("cond-g/enforcer", COND, "g", "g", GC_RULES),
         # values containing the separator: different rules whose comma-joined texts are equal
         Shape("acl-comma/enforcer", ACL, "p", "p", [["team,blue", "report", "read"], ["team", "blue,report", "read"], ["team,blue", "report,read", ""]]),
     ]
